@@ -1,184 +1,1161 @@
-// scratch experiments (to be replaced by the real harness)
+// C08 harness: drives the validator bookkeeping of core/state (CreateValidator,
+// UpdateValidator, RemoveValidator, UpdateDelegation, Snapshot/RevertToSnapshot,
+// Finalise, IntermediateRoot, Commit + state.New, Copy, GetValidatorsForUpdate)
+// of the working tree over random op histories, records a hash of the complete
+// projected state after every op for the in-Coq comparison with the model, and
+// evaluates the property oracle (recomputation of the statistics, totals,
+// stake units, index, delegation links) on the implementation's own state.
 package main
 
 import (
+	"encoding/json"
+	"flag"
 	"fmt"
+	"io/ioutil"
 	"math/big"
+	"os"
+	"path/filepath"
+	"sort"
+	"strings"
 
 	"github.com/youchainhq/go-youchain/common"
 	"github.com/youchainhq/go-youchain/core/state"
 	"github.com/youchainhq/go-youchain/crypto"
+	"github.com/youchainhq/go-youchain/logging"
 	"github.com/youchainhq/go-youchain/params"
 	"github.com/youchainhq/go-youchain/youdb"
+	"verif/harness/vf"
 )
 
-func key(i int) []byte {
-	b := make([]byte, 32)
-	b[31] = byte(i + 1)
-	b[0] = 7
-	k, err := crypto.ToECDSA(b)
-	if err != nil {
-		panic(err)
-	}
-	return crypto.CompressPubkey(&k.PublicKey)
+const (
+	NV = 6 // validator keys
+	ND = 6 // delegator accounts
+)
+
+type Upd struct {
+	Role, Status                            int64
+	Token, Stake, SToken, SStake, RDist, RT string
+	Misc                                    int64
 }
 
-func you(n int64) *big.Int { return new(big.Int).Mul(big.NewInt(n), params.StakeUint) }
+type Op struct {
+	K       string `json:"k"`
+	A       int    `json:"a,omitempty"` // validator number
+	D       int    `json:"d,omitempty"` // delegator number
+	Role    int64  `json:"role,omitempty"`
+	Status  int64  `json:"status,omitempty"`
+	Token   string `json:"token,omitempty"`
+	Stake   string `json:"stake,omitempty"`
+	Amt     string `json:"amt,omitempty"`
+	U       *Upd   `json:"u,omitempty"`
+	Id      int    `json:"id,omitempty"`
+	InPlace bool   `json:"inplace,omitempty"`
+}
 
-func dumpStat(st *state.StateDB, tag string) {
-	s, _ := st.GetValidatorsStat()
-	fmt.Printf("[%s] stat:", tag)
+type History struct {
+	What    string `json:"what,omitempty"`
+	Ops     []Op   `json:"ops"`
+	Comment string `json:"comment,omitempty"`
+	// filled by run
+	Hashes  []uint64 `json:"-"`
+	Panic   bool     `json:"-"`
+	PanicAt string   `json:"-"`
+}
+
+var (
+	unit   = params.StakeUint
+	vkeys  [NV][]byte
+	vaddrs [NV]common.Address
+	daddrs [ND]common.Address
+	rank   = map[common.Address]int64{}
+)
+
+func bz(s string) *big.Int {
+	if s == "" {
+		return new(big.Int)
+	}
+	x, ok := new(big.Int).SetString(s, 10)
+	if !ok {
+		panic("bad number " + s)
+	}
+	return x
+}
+
+func setup() {
+	for i := 0; i < NV; i++ {
+		b := make([]byte, 32)
+		b[0] = 7
+		b[31] = byte(i + 1)
+		k, err := crypto.ToECDSA(b)
+		if err != nil {
+			panic(err)
+		}
+		vkeys[i] = crypto.CompressPubkey(&k.PublicKey)
+		vaddrs[i] = state.PubToAddress(vkeys[i])
+	}
+	for i := 0; i < ND; i++ {
+		var a common.Address
+		a[19] = byte(0x10 + i)
+		if i%2 == 1 {
+			a[0] = byte(0xF0 - i) // some delegators sort above every validator
+		}
+		daddrs[i] = a
+	}
+	var all []common.Address
+	for _, a := range vaddrs {
+		all = append(all, a)
+	}
+	for _, a := range daddrs {
+		all = append(all, a)
+	}
+	sort.Slice(all, func(i, j int) bool { return all[i].Big().Cmp(all[j].Big()) < 0 })
+	for i, a := range all {
+		rank[a] = int64(i + 1)
+	}
+}
+
+func rk(a common.Address) int64 {
+	if r, ok := rank[a]; ok {
+		return r
+	}
+	return 999
+}
+
+// ---- observation hash (must mirror Model.obs / hash_list) ----------------
+
+var two63 = new(big.Int).Lsh(big.NewInt(1), 63)
+
+const mask63 = uint64(1)<<63 - 1
+
+type hasher struct {
+	h    uint64
+	raw  []string
+	keep bool
+}
+
+func newHasher(keep bool) *hasher { return &hasher{h: 17, keep: keep} }
+func (h *hasher) addU(x uint64) { h.h = (h.h*1000003 + x + 7) & mask63 }
+func (h *hasher) big(x *big.Int) {
+	if h.keep {
+		h.raw = append(h.raw, x.String())
+	}
+	if x.IsInt64() {
+		h.addU(uint64(x.Int64()))
+		return
+	}
+	m := new(big.Int).Mod(x, two63) // Euclidean: two's complement low 63 bits
+	h.addU(m.Uint64())
+}
+func (h *hasher) i(x int64)  { h.big(big.NewInt(x)) }
+func (h *hasher) u(x uint64) { h.big(new(big.Int).SetUint64(x)) }
+func (h *hasher) b(x bool) {
+	if x {
+		h.i(1)
+	} else {
+		h.i(0)
+	}
+}
+
+func (h *hasher) stat(s *state.ValidatorsStat) {
+	one := func(k *state.ValKindStat) {
+		h.big(k.GetOnlineStake())
+		h.big(k.GetOnlineToken())
+		h.u(k.GetCount())
+		h.big(k.GetOfflineStake())
+		h.big(k.GetOfflineToken())
+		h.u(k.GetOfflineCount())
+	}
 	for _, k := range []params.ValidatorKind{0, 1, 2} {
-		x := s.GetByKind(k)
-		fmt.Printf(" K%d(on %v/%v/%d off %v/%v/%d)", k, x.GetOnlineStake(), x.GetOnlineToken(), x.GetCount(), x.GetOfflineStake(), x.GetOfflineToken(), x.GetOfflineCount())
+		one(s.GetByKind(k))
 	}
-	fmt.Println()
+	for _, r := range []params.ValidatorRole{1, 2, 3} {
+		one(s.GetByRole(r))
+	}
 }
-func dumpVals(st *state.StateDB, tag string) {
-	for _, v := range st.GetValidatorsForUpdate() {
-		fmt.Printf("[%s] val %s role %d st %d token %v stake %v self %v/%v dlg:", tag, v.MainAddress().String()[:8], v.Role, v.Status, v.Token, v.Stake, v.SelfToken, v.SelfStake)
-		for _, d := range v.Delegations {
-			if d == nil {
-				fmt.Printf(" <nil>")
-				continue
+
+func (h *hasher) valScalars(v *state.Validator) {
+	h.i(int64(v.Role))
+	h.i(int64(v.Status))
+	h.big(v.Token)
+	h.big(v.Stake)
+	h.big(v.SelfToken)
+	h.big(v.SelfStake)
+	h.big(v.RewardsDistributable)
+	h.big(v.RewardsTotal)
+	h.u(v.LastInactive)
+}
+func (h *hasher) dl(l state.DelegationFroms) {
+	for _, d := range l {
+		if d == nil {
+			h.i(-1)
+		} else {
+			h.i(rk(d.Delegator))
+			h.big(d.Stake)
+			h.big(d.Token)
+		}
+	}
+}
+
+func observe(st *state.StateDB, keep bool) *hasher {
+	h := newHasher(keep)
+	s, _ := st.GetValidatorsStat()
+	h.stat(s)
+	idx := st.VerifC08Index()
+	h.i(int64(len(idx)))
+	for _, a := range idx {
+		h.i(rk(a))
+	}
+	for _, a := range sortedV {
+		r := st.VerifC08Raw(a)
+		if !r.Present {
+			h.i(0)
+			continue
+		}
+		h.i(1)
+		h.b(r.Deleted)
+		h.valScalars(r.Val)
+		h.i(int64(len(r.Val.Delegations)))
+		h.i(int64(r.Cap))
+		h.dl(r.Val.Delegations)
+	}
+	for _, a := range sortedV {
+		v, ok, bad := st.VerifC08Trie(a)
+		switch {
+		case !ok:
+			h.i(0)
+		case bad:
+			h.i(2)
+		default:
+			h.i(1)
+			h.valScalars(v)
+			h.i(int64(len(v.Delegations)))
+			h.dl(v.Delegations)
+		}
+	}
+	ti, present := st.VerifC08TrieIndex()
+	if !present {
+		h.i(-1)
+	} else {
+		h.i(int64(len(ti)))
+		for _, a := range ti {
+			h.i(rk(a))
+		}
+	}
+	h.stat(st.VerifC08TrieStat())
+	for _, a := range sortedD {
+		ac := st.VerifC08Account(a)
+		if !ac.Present {
+			h.i(0)
+			continue
+		}
+		h.i(1)
+		h.big(ac.Balance)
+		h.b(ac.Loaded)
+		h.b(ac.Dirty)
+		switch {
+		case ac.Loaded:
+			h.i(int64(len(ac.List)))
+			for _, x := range ac.List {
+				h.i(rk(x))
 			}
-			fmt.Printf(" (%s %v/%v)", d.Delegator.String()[:6], d.Token, d.Stake)
+		case ac.HashEmpty:
+			h.i(-2)
+		case ac.BlobPresent:
+			h.i(-3)
+			h.i(int64(len(ac.List)))
+			for _, x := range ac.List {
+				h.i(rk(x))
+			}
+		default:
+			h.i(-4)
 		}
-		fmt.Println()
 	}
+	aj, vj, revs, next, dirty := st.VerifC08Counters()
+	h.i(int64(aj))
+	h.i(int64(vj))
+	h.i(int64(revs))
+	h.i(int64(next))
+	h.i(int64(len(dirty)))
+	for _, a := range dirty {
+		h.i(rk(a))
+	}
+	return h
 }
 
-func try(name string, f func()) {
-	defer func() {
-		if r := recover(); r != nil {
-			fmt.Println("PANIC in", name, ":", r)
-		}
-	}()
-	fmt.Println("=====", name)
-	f()
+var sortedV, sortedD []common.Address
+
+func initSorted() {
+	sortedV = append([]common.Address{}, vaddrs[:]...)
+	sortedD = append([]common.Address{}, daddrs[:]...)
+	sort.Slice(sortedV, func(i, j int) bool { return rk(sortedV[i]) < rk(sortedV[j]) })
+	sort.Slice(sortedD, func(i, j int) bool { return rk(sortedD[i]) < rk(sortedD[j]) })
 }
 
-func newState() (*state.StateDB, state.Database) {
+// ---- running one op on the implementation ---------------------------------
+
+type world struct {
+	st *state.StateDB
+	db state.Database
+}
+
+func newWorld() *world {
 	db := state.NewDatabase(youdb.NewMemDatabase())
 	st, err := state.New(common.Hash{}, common.Hash{}, common.Hash{}, db)
 	if err != nil {
 		panic(err)
 	}
-	return st, db
+	return &world{st, db}
 }
 
-func daddr(i int) common.Address { return common.BigToAddress(big.NewInt(int64(0x1000 + i))) }
+func (w *world) exec(o Op) (panicked bool, msg string) {
+	defer func() {
+		if r := recover(); r != nil {
+			panicked = true
+			msg = fmt.Sprint(r)
+		}
+	}()
+	st := w.st
+	switch o.K {
+	case "fund":
+		st.AddBalance(daddrs[o.D], big.NewInt(1))
+	case "create":
+		st.CreateValidator("v", common.Address{1}, common.Address{2}, params.ValidatorRole(o.Role), vkeys[o.A], vkeys[o.A], bz(o.Token), bz(o.Stake), 1, 0, 0, uint8(o.Status))
+	case "update":
+		old := st.GetValidatorByMainAddr(vaddrs[o.A])
+		if old == nil {
+			return
+		}
+		write := func(v *state.Validator) {
+			v.Role = params.ValidatorRole(o.U.Role)
+			v.Status = uint8(o.U.Status)
+			v.Token = bz(o.U.Token)
+			v.Stake = bz(o.U.Stake)
+			v.SelfToken = bz(o.U.SToken)
+			v.SelfStake = bz(o.U.SStake)
+			v.RewardsDistributable = bz(o.U.RDist)
+			v.RewardsTotal = bz(o.U.RT)
+			v.LastInactive = uint64(o.U.Misc)
+		}
+		if o.InPlace {
+			// the GetValidatorsForUpdate pattern: copy = old, live object mutated
+			cp := old.PartialCopy()
+			write(old)
+			st.UpdateValidator(old, cp)
+		} else {
+			nw := old.PartialCopy()
+			write(nw)
+			st.UpdateValidator(nw, old)
+		}
+	case "remove":
+		st.RemoveValidator(vaddrs[o.A])
+	case "delegate":
+		v := st.GetValidatorByMainAddr(vaddrs[o.A])
+		if v == nil {
+			return
+		}
+		st.UpdateDelegation(daddrs[o.D], v, bz(o.Amt))
+	case "snap":
+		st.Snapshot()
+	case "revert":
+		st.RevertToSnapshot(o.Id)
+	case "finalise":
+		st.Finalise(true)
+	case "root":
+		st.IntermediateRoot(true)
+	case "commit":
+		r1, r2, r3, err := st.Commit(true)
+		if err != nil {
+			panic("commit: " + err.Error())
+		}
+		n, err := state.New(r1, r2, r3, w.db)
+		if err != nil {
+			panic("reopen: " + err.Error())
+		}
+		w.st = n
+	case "copy":
+		w.st = st.Copy()
+	case "list":
+		st.GetValidatorsForUpdate()
+	default:
+		panic("unknown op " + o.K)
+	}
+	return
+}
+
+// ---- oracle: the property on the implementation's own state ----------------
+
+type existing struct {
+	v *state.Validator
+}
+
+func peek(st *state.StateDB, a common.Address) *state.Validator {
+	r := st.VerifC08Raw(a)
+	if r.Present {
+		if r.Deleted {
+			return nil
+		}
+		return r.Val
+	}
+	v, ok, bad := st.VerifC08Trie(a)
+	if !ok || bad {
+		return nil
+	}
+	return v
+}
+
+type clause struct{ stat, index, sums, units, links string }
+
+// oracle returns, per clause of the property, "" or a description of the failure.
+func oracle(st *state.StateDB) clause {
+	var c clause
+	type acc struct {
+		onS, onT, offS, offT *big.Int
+		on, off              uint64
+	}
+	mk := func() *acc { return &acc{new(big.Int), new(big.Int), new(big.Int), new(big.Int), 0, 0} }
+	kinds := map[int]*acc{0: mk(), 1: mk(), 2: mk()}
+	roles := map[int]*acc{1: mk(), 2: mk(), 3: mk()}
+	var live []common.Address
+	for _, a := range sortedV {
+		v := peek(st, a)
+		if v == nil {
+			continue
+		}
+		live = append(live, a)
+		kind := 1
+		if v.Role == 3 {
+			kind = 2
+		}
+		for _, x := range []*acc{roles[int(v.Role)], kinds[kind], kinds[0]} {
+			if x == nil {
+				continue
+			}
+			if v.Status == params.ValidatorOnline {
+				x.onS.Add(x.onS, v.Stake)
+				x.onT.Add(x.onT, v.Token)
+				x.on++
+			} else {
+				x.offS.Add(x.offS, v.Stake)
+				x.offT.Add(x.offT, v.Token)
+				x.off++
+			}
+		}
+		// totals
+		tok, stk := new(big.Int).Set(v.SelfToken), new(big.Int).Set(v.SelfStake)
+		var prev *big.Int
+		for _, d := range v.Delegations {
+			if d == nil {
+				c.sums = fmt.Sprintf("validator %d has a nil delegation", rk(a))
+				break
+			}
+			tok.Add(tok, d.Token)
+			stk.Add(stk, d.Stake)
+			if prev != nil && prev.Cmp(d.Delegator.Big()) >= 0 {
+				c.sums = fmt.Sprintf("validator %d: delegations not strictly sorted", rk(a))
+			}
+			prev = d.Delegator.Big()
+			if d.Stake.Cmp(new(big.Int).Div(d.Token, unit)) != 0 && c.units == "" {
+				c.units = fmt.Sprintf("validator %d: delegation stake %v != token %v / unit", rk(a), d.Stake, d.Token)
+			}
+			ac := st.VerifC08Account(d.Delegator)
+			ok := false
+			if ac.Present && (ac.Loaded || ac.HashEmpty || ac.BlobPresent) {
+				for _, x := range ac.List {
+					if x == a {
+						ok = true
+					}
+				}
+			}
+			if !ok && c.links == "" {
+				c.links = fmt.Sprintf("validator %d lists delegator %d whose account does not list it", rk(a), rk(d.Delegator))
+			}
+		}
+		if c.sums == "" && (tok.Cmp(v.Token) != 0 || stk.Cmp(v.Stake) != 0) {
+			c.sums = fmt.Sprintf("validator %d: token %v stake %v but self+delegations = %v / %v", rk(a), v.Token, v.Stake, tok, stk)
+		}
+		if v.SelfStake.Cmp(new(big.Int).Div(v.SelfToken, unit)) != 0 && c.units == "" {
+			c.units = fmt.Sprintf("validator %d: self stake %v != self token %v / unit", rk(a), v.SelfStake, v.SelfToken)
+		}
+	}
+	s, _ := st.GetValidatorsStat()
+	cmp := func(name string, k *state.ValKindStat, x *acc) {
+		if c.stat != "" {
+			return
+		}
+		if k.GetOnlineStake().Cmp(x.onS) != 0 || k.GetOnlineToken().Cmp(x.onT) != 0 || k.GetCount() != x.on ||
+			k.GetOfflineStake().Cmp(x.offS) != 0 || k.GetOfflineToken().Cmp(x.offT) != 0 || k.GetOfflineCount() != x.off {
+			c.stat = fmt.Sprintf("%s: stat on %v/%v/%d off %v/%v/%d, records give on %v/%v/%d off %v/%v/%d", name,
+				k.GetOnlineStake(), k.GetOnlineToken(), k.GetCount(), k.GetOfflineStake(), k.GetOfflineToken(), k.GetOfflineCount(),
+				x.onS, x.onT, x.on, x.offS, x.offT, x.off)
+		}
+	}
+	for i := 0; i < 3; i++ {
+		cmp(fmt.Sprintf("kind %d", i), s.GetByKind(params.ValidatorKind(i)), kinds[i])
+	}
+	for i := 1; i <= 3; i++ {
+		cmp(fmt.Sprintf("role %d", i), s.GetByRole(params.ValidatorRole(i)), roles[i])
+	}
+	idx := st.VerifC08Index()
+	if len(idx) != len(live) {
+		c.index = fmt.Sprintf("index has %d addresses, %d validators exist", len(idx), len(live))
+	} else {
+		for i := range idx {
+			if idx[i] != live[i] {
+				c.index = fmt.Sprintf("index entry %d is validator %d, expected %d", i, rk(idx[i]), rk(live[i]))
+				break
+			}
+		}
+	}
+	for _, d := range sortedD {
+		ac := st.VerifC08Account(d)
+		if !ac.Present {
+			continue
+		}
+		if !(ac.Loaded || ac.HashEmpty || ac.BlobPresent) {
+			if c.links == "" {
+				c.links = fmt.Sprintf("delegation list of account %d cannot be read (blob missing)", rk(d))
+			}
+			continue
+		}
+		sum := new(big.Int)
+		for _, a := range ac.List {
+			v := peek(st, a)
+			var df *state.DelegationFrom
+			if v != nil {
+				for _, x := range v.Delegations {
+					if x != nil && x.Delegator == d {
+						df = x
+					}
+				}
+			}
+			if df == nil {
+				if c.links == "" {
+					c.links = fmt.Sprintf("account %d lists validator %d which has no delegation from it", rk(d), rk(a))
+				}
+				continue
+			}
+			sum.Add(sum, df.Token)
+		}
+		if sum.Cmp(ac.Balance) != 0 && c.links == "" {
+			c.links = fmt.Sprintf("account %d: delegation balance %v but delegations sum to %v", rk(d), ac.Balance, sum)
+		}
+	}
+	return c
+}
+
+// ---- history runner with finding classes ----------------------------------
+
+// Finding classes (genuine defects of the unchanged tree, see /verif/fixes/C08_*.md).
+// A history is attributed to the first class it enters; the same predicates
+// are stated in Coq (Model/Proofs: pre).
+const (
+	F1 = "revert-across-delegation-update"
+	F2 = "remove-validator"
+	F3 = "list-reloads-index"
+	F4 = "copy-drops-delegation-lists"
+	F5 = "delegate-from-missing-account"
+)
+
+type runResult struct {
+	class       string // first finding class entered ("" = none)
+	undisc      bool   // caller discipline broken (raw update, over-withdraw, wrong stake, ...)
+	failures    []string
+	failClass   []string // class in force when the failure was seen
+	opsDone     int
+	panicked    bool
+	panicMsg    string
+	classes     map[string]bool
+}
+
+func disciplinedUpd(old *state.Validator, u *Upd) bool {
+	st, ss := bz(u.SToken), bz(u.SStake)
+	if st.Sign() < 0 || ss.Cmp(new(big.Int).Div(st, unit)) != 0 {
+		return false
+	}
+	if u.Role < 1 || u.Role > 3 || bz(u.RDist).Sign() < 0 || bz(u.RT).Sign() < 0 {
+		return false
+	}
+	dt := new(big.Int).Sub(st, old.SelfToken)
+	ds := new(big.Int).Sub(ss, old.SelfStake)
+	return bz(u.Token).Cmp(new(big.Int).Add(old.Token, dt)) == 0 && bz(u.Stake).Cmp(new(big.Int).Add(old.Stake, ds)) == 0
+}
+
+func run(h *History, keepRaw bool, trace func(i int, o Op, hs *hasher, c clause)) *runResult {
+	w := newWorld()
+	res := &runResult{classes: map[string]bool{}}
+	enter := func(c string) {
+		res.classes[c] = true
+		if res.class == "" {
+			res.class = c
+		}
+	}
+	taint := 0            // validator-journal length after the last delegation update
+	revVj := map[int]int{} // revision id -> validator-journal length when taken
+	h.Hashes = nil
+	h.Panic = false
+	for i, o := range h.Ops {
+		st := w.st
+		// classification on the pre-state
+		switch o.K {
+		case "create":
+			if bz(o.Token).Sign() < 0 || bz(o.Stake).Cmp(new(big.Int).Div(bz(o.Token), unit)) != 0 || o.Role < 1 || o.Role > 3 {
+				res.undisc = true
+			}
+		case "update":
+			if old := peek(st, vaddrs[o.A]); old != nil && !disciplinedUpd(old, o.U) {
+				res.undisc = true
+			}
+		case "remove":
+			if st.VerifC08Raw(vaddrs[o.A]).Present {
+				enter(F2)
+			}
+		case "delegate":
+			if v := peek(st, vaddrs[o.A]); v != nil && bz(o.Amt).Sign() != 0 {
+				if !st.VerifC08Account(daddrs[o.D]).Present {
+					enter(F5)
+				}
+				var cur *big.Int
+				for _, d := range v.Delegations {
+					if d != nil && d.Delegator == daddrs[o.D] {
+						cur = d.Token
+					}
+				}
+				if cur == nil {
+					cur = new(big.Int)
+				}
+				if new(big.Int).Add(cur, bz(o.Amt)).Sign() < 0 {
+					res.undisc = true
+				}
+			}
+		case "revert":
+			if vj, ok := revVj[o.Id]; ok && vj < taint {
+				enter(F1)
+			} else if !ok {
+				res.undisc = true // not a valid revision id
+			}
+		case "list":
+			ti, present := st.VerifC08TrieIndex()
+			mi := st.VerifC08Index()
+			if present && len(mi) > 0 {
+				same := len(ti) == len(mi)
+				for k := 0; same && k < len(ti); k++ {
+					same = ti[k] == mi[k]
+				}
+				if !same {
+					enter(F3)
+				}
+			}
+		case "copy":
+			for _, d := range sortedD {
+				ac := st.VerifC08Account(d)
+				if ac.Present && !ac.HashEmpty && !ac.BlobPresent {
+					enter(F4)
+				}
+			}
+		}
+		_, vjBefore, _, nextBefore, _ := st.VerifC08Counters()
+		delegated := false
+		if o.K == "delegate" && bz(o.Amt).Sign() != 0 && peek(st, vaddrs[o.A]) != nil {
+			delegated = true
+		}
+		p, msg := w.exec(o)
+		if p {
+			h.Panic = true
+			h.PanicAt = fmt.Sprintf("op %d (%s): %s", i, o.K, msg)
+			res.panicked = true
+			res.panicMsg = h.PanicAt
+			if res.class == "" && !res.undisc {
+				res.failures = append(res.failures, "panic: "+h.PanicAt)
+				res.failClass = append(res.failClass, "")
+			}
+			break
+		}
+		res.opsDone++
+		st = w.st
+		_, vjAfter, _, _, _ := st.VerifC08Counters()
+		switch o.K {
+		case "snap":
+			revVj[nextBefore] = vjBefore
+		case "finalise", "root", "commit", "copy":
+			taint = 0
+			revVj = map[int]int{}
+		case "revert":
+			if vjAfter < taint {
+				taint = vjAfter
+			}
+			for id := range revVj {
+				if id >= o.Id {
+					delete(revVj, id)
+				}
+			}
+		}
+		if delegated {
+			taint = vjAfter
+		}
+		hs := observe(st, keepRaw)
+		h.Hashes = append(h.Hashes, hs.h)
+		c := oracle(st)
+		if trace != nil {
+			trace(i, o, hs, c)
+		}
+		add := func(s string) {
+			if s != "" {
+				res.failures = append(res.failures, fmt.Sprintf("after op %d (%s): %s", i, o.K, s))
+				res.failClass = append(res.failClass, res.class)
+			}
+		}
+		add(c.stat)
+		add(c.index)
+		if !res.undisc {
+			add(c.sums)
+			add(c.units)
+			add(c.links)
+		}
+	}
+	return res
+}
+
+// ---- generation -------------------------------------------------------------
+
+func amount(r *vf.Rng) *big.Int {
+	k := int64(r.Intn(6))
+	if r.Chance(10) {
+		k = int64(r.Intn(2000))
+	}
+	x := new(big.Int).Mul(big.NewInt(k), unit)
+	switch r.Intn(6) {
+	case 0:
+		x.Add(x, big.NewInt(1))
+	case 1:
+		x.Sub(x, big.NewInt(1))
+	case 2:
+		x.Add(x, big.NewInt(int64(r.Intn(1000000))))
+	}
+	if x.Sign() < 0 {
+		x.SetInt64(0)
+	}
+	return x
+}
+
+func stakeOf(t *big.Int) *big.Int { return new(big.Int).Div(t, unit) }
+
+type genState struct {
+	w      *world
+	revIds []int
+}
+
+func genHistory(r *vf.Rng, flavour int) *History {
+	h := &History{}
+	w := newWorld()
+	steps := 10 + r.Intn(25) + r.Heavy(100)
+	allowFindings := flavour == 1 // flavour 0: stays inside the disciplined, finding-free class
+	removedPending := false
+	push := func(o Op) bool {
+		h.Ops = append(h.Ops, o)
+		p, _ := w.exec(o)
+		return !p
+	}
+	// prologue: fund most delegators, create a few validators
+	for d := 0; d < ND; d++ {
+		if r.Chance(80) || !allowFindings {
+			if !push(Op{K: "fund", D: d}) {
+				return h
+			}
+		}
+	}
+	for len(h.Ops) < steps {
+		st := w.st
+		a := r.Intn(NV)
+		d := r.Intn(ND)
+		live := peek(st, vaddrs[a])
+		var o Op
+		switch x := r.Intn(100); {
+		case x < 14:
+			t := amount(r)
+			o = Op{K: "create", A: a, Role: int64(1 + r.Intn(3)), Status: int64(r.Intn(2)), Token: t.String(), Stake: stakeOf(t).String()}
+			if allowFindings && r.Chance(6) {
+				o.Stake = new(big.Int).Add(stakeOf(t), big.NewInt(int64(1+r.Intn(3)))).String()
+			}
+			if allowFindings && r.Chance(3) {
+				o.Role = int64(r.Intn(6))
+			}
+			if allowFindings && r.Chance(4) {
+				o.Status = 2
+			}
+		case x < 40:
+			if live == nil {
+				continue
+			}
+			u := &Upd{Role: int64(live.Role), Status: int64(live.Status), Token: live.Token.String(), Stake: live.Stake.String(),
+				SToken: live.SelfToken.String(), SStake: live.SelfStake.String(), RDist: live.RewardsDistributable.String(),
+				RT: live.RewardsTotal.String(), Misc: int64(live.LastInactive)}
+			o = Op{K: "update", A: a, U: u}
+			setSelf := func(ns *big.Int) {
+				nss := stakeOf(ns)
+				u.Token = new(big.Int).Add(live.Token, new(big.Int).Sub(ns, live.SelfToken)).String()
+				u.Stake = new(big.Int).Add(live.Stake, new(big.Int).Sub(nss, live.SelfStake)).String()
+				u.SToken, u.SStake = ns.String(), nss.String()
+			}
+			switch y := r.Intn(100); {
+			case y < 25: // deposit
+				setSelf(new(big.Int).Add(live.SelfToken, amount(r)))
+			case y < 50: // withdraw (clamped like teWithdraw)
+				wd := amount(r)
+				if wd.Cmp(live.SelfToken) > 0 || r.Chance(30) {
+					wd = new(big.Int).Set(live.SelfToken)
+				}
+				setSelf(new(big.Int).Sub(live.SelfToken, wd))
+				if r.Chance(30) {
+					u.Status = 0
+				}
+			case y < 65: // status
+				u.Status = 1 - u.Status
+				if u.Status < 0 {
+					u.Status = 1
+				}
+			case y < 72: // role
+				u.Role = int64(1 + r.Intn(3))
+			case y < 84: // rewards / settle
+				if r.Bool() {
+					x := amount(r)
+					u.RDist = new(big.Int).Add(live.RewardsDistributable, x).String()
+					u.RT = new(big.Int).Add(live.RewardsTotal, x).String()
+				} else {
+					u.RDist = big.NewInt(int64(r.Intn(5))).String()
+				}
+				o.InPlace = r.Bool()
+			case y < 94: // non-stake field, possibly in place
+				u.Misc = int64(r.Intn(1000))
+				o.InPlace = r.Bool()
+			default: // raw write (caller breaks the discipline)
+				if !allowFindings {
+					u.Misc = int64(r.Intn(1000))
+				} else {
+					u.Token = amount(r).String()
+					u.Stake = big.NewInt(int64(r.Intn(8))).String()
+					if r.Chance(20) {
+						u.Token = "-" + amount(r).String()
+					}
+				}
+			}
+		case x < 62:
+			if live == nil {
+				continue
+			}
+			var cur *big.Int
+			for _, df := range live.Delegations {
+				if df != nil && df.Delegator == daddrs[d] {
+					cur = df.Token
+				}
+			}
+			var amt *big.Int
+			if cur == nil || r.Chance(45) {
+				amt = amount(r)
+				if amt.Sign() == 0 && r.Chance(80) {
+					amt = big.NewInt(1)
+				}
+			} else {
+				switch r.Intn(4) {
+				case 0, 1:
+					amt = new(big.Int).Neg(cur) // withdraw all
+				case 2:
+					amt = new(big.Int).Neg(new(big.Int).Div(cur, big.NewInt(int64(1+r.Intn(3)))))
+				default:
+					amt = new(big.Int).Neg(amount(r))
+					if new(big.Int).Add(cur, amt).Sign() < 0 && !(allowFindings && r.Chance(30)) {
+						amt = new(big.Int).Neg(cur)
+					}
+				}
+			}
+			if !allowFindings && !st.VerifC08Account(daddrs[d]).Present {
+				continue
+			}
+			o = Op{K: "delegate", A: a, D: d, Amt: amt.String()}
+		case x < 72:
+			o = Op{K: "snap"}
+		case x < 80:
+			ids := st.VerifC08RevisionIds()
+			if len(ids) == 0 {
+				continue
+			}
+			o = Op{K: "revert", Id: ids[r.Intn(len(ids))]}
+			if allowFindings && r.Chance(3) {
+				o.Id = ids[len(ids)-1] + 1 + r.Intn(2) // invalid id: panics
+			}
+		case x < 84:
+			o = Op{K: "finalise"}
+		case x < 90:
+			o = Op{K: "root"}
+			removedPending = false
+		case x < 94:
+			o = Op{K: "commit"}
+			removedPending = false
+		case x < 96:
+			o = Op{K: "copy"}
+		case x < 98:
+			o = Op{K: "list"}
+		default:
+			if !allowFindings || removedPending {
+				o = Op{K: "fund", D: d}
+			} else {
+				o = Op{K: "remove", A: a}
+				removedPending = true
+			}
+		}
+		if !allowFindings {
+			// keep the history outside every finding class: test the op on a dry classification
+			if !safeOp(w, h, o) {
+				continue
+			}
+		}
+		if !push(o) {
+			break
+		}
+	}
+	return h
+}
+
+// safeOp tells whether appending o keeps the history out of all finding classes
+// (re-runs the classification on a fresh world: histories are short).
+func safeOp(w *world, h *History, o Op) bool {
+	t := &History{Ops: append(append([]Op{}, h.Ops...), o)}
+	res := run(t, false, nil)
+	return res.class == "" && !res.undisc && !res.panicked
+}
+
+// ---- Coq output ----------------------------------------------------------------
+
+func zs(s string) string {
+	if strings.HasPrefix(s, "-") {
+		return "(" + s + ")"
+	}
+	if s == "" {
+		return "0"
+	}
+	return s
+}
+func zi(x int64) string { return zs(fmt.Sprint(x)) }
+
+func opCoq(o Op) string {
+	va := func() string { return zi(rk(vaddrs[o.A])) }
+	da := func() string { return zi(rk(daddrs[o.D])) }
+	switch o.K {
+	case "fund":
+		return "OFund " + da()
+	case "create":
+		return fmt.Sprintf("OCreate %s %s %s %s %s", va(), zi(o.Role), zi(o.Status), zs(o.Token), zs(o.Stake))
+	case "update":
+		u := o.U
+		return fmt.Sprintf("OUpdate %s (mkU %s %s %s %s %s %s %s %s %s)", va(), zi(u.Role), zi(u.Status), zs(u.Token), zs(u.Stake), zs(u.SToken), zs(u.SStake), zs(u.RDist), zs(u.RT), zi(u.Misc))
+	case "remove":
+		return "ORemove " + va()
+	case "delegate":
+		return fmt.Sprintf("ODelegate %s %s %s", da(), va(), zs(o.Amt))
+	case "snap":
+		return "OSnapshot"
+	case "revert":
+		return "ORevert " + zi(int64(o.Id))
+	case "finalise":
+		return "OFinalise"
+	case "root":
+		return "ORoot"
+	case "commit":
+		return "OCommitReload"
+	case "copy":
+		return "OCopy"
+	case "list":
+		return "OList"
+	}
+	panic("op")
+}
+
+func caseCoq(h *History) string {
+	var ops, hs, uv, ua []string
+	for _, o := range h.Ops {
+		ops = append(ops, opCoq(o))
+	}
+	for _, x := range h.Hashes {
+		hs = append(hs, fmt.Sprint(x))
+	}
+	for _, a := range sortedV {
+		uv = append(uv, zi(rk(a)))
+	}
+	for _, a := range sortedD {
+		ua = append(ua, zi(rk(a)))
+	}
+	return fmt.Sprintf("mkCase %s %s\n %s\n %s %s", vf.List(uv), vf.List(ua), vf.List(ops), vf.List(hs), vf.Bool(h.Panic))
+}
+
+func loadCorpus(dir string) []*History {
+	var out []*History
+	files, _ := filepath.Glob(filepath.Join(dir, "*.json"))
+	sort.Strings(files)
+	for _, f := range files {
+		b, err := ioutil.ReadFile(f)
+		if err != nil {
+			continue
+		}
+		var h History
+		if json.Unmarshal(b, &h) == nil && len(h.Ops) > 0 {
+			h.Comment = "corpus:" + filepath.Base(f)
+			out = append(out, &h)
+		}
+	}
+	return out
+}
+
+func gen(seed uint64, n int, outDir, corpusDir string, flavour int) {
+	r := vf.NewRng(seed)
+	res := vf.NewResult("C08", seed)
+	var cases []*History
+	distinct := map[string]bool{}
+	known := map[string]int{}
+	handle := func(h *History, tag string) {
+		rr := run(h, false, nil)
+		cases = append(cases, h)
+		key := caseCoq(h)
+		nontrivial := false
+		for _, o := range h.Ops {
+			res.Count("op:" + o.K)
+			if o.K == "create" || o.K == "delegate" || o.K == "update" {
+				nontrivial = true
+			}
+		}
+		if nontrivial {
+			distinct[key] = true
+		}
+		res.Count("history:" + tag)
+		if rr.panicked {
+			res.Count("outcome:panic")
+		} else {
+			res.Count("outcome:completed")
+		}
+		if rr.undisc {
+			res.Count("class:caller-discipline-broken")
+		}
+		for c := range rr.classes {
+			res.Count("class:" + c)
+		}
+		if rr.class == "" && !rr.undisc {
+			res.Count("class:none(disciplined)")
+		}
+		for i, f := range rr.failures {
+			cl := rr.failClass[i]
+			if cl == "" {
+				res.OracleHits = append(res.OracleHits, History{What: f, Ops: h.Ops[:rr.opsDone+boolInt(rr.panicked)], Comment: h.Comment})
+				res.Count("oracle:VIOLATION")
+				break
+			}
+			known[cl]++
+			res.Count("oracle:known-finding:" + cl)
+			break
+		}
+	}
+	for _, h := range loadCorpus(corpusDir) {
+		handle(h, "corpus")
+	}
+	for len(cases) < n {
+		fl := 0
+		if r.Chance(45) {
+			fl = 1
+		}
+		if flavour >= 0 {
+			fl = flavour
+		}
+		h := genHistory(r, fl)
+		if len(h.Ops) == 0 {
+			continue
+		}
+		handle(h, map[int]string{0: "disciplined", 1: "adversarial"}[fl])
+	}
+	var sb strings.Builder
+	sb.WriteString("From VF.C08 Require Import Model.\nLocal Open Scope Z_scope.\nDefinition cases : list case := [\n")
+	for i, c := range cases {
+		if i > 0 {
+			sb.WriteString(";\n")
+		}
+		sb.WriteString(caseCoq(c))
+	}
+	sb.WriteString("].\nDefinition M := Eval vm_compute in mismatches cases.\nPrint M.\n")
+	vf.WriteFile(filepath.Join(outDir, "Cases.v"), sb.String())
+	res.Cases = len(cases)
+	res.Distinct = len(distinct)
+	res.Rule = "random histories of public StateDB calls (fund, CreateValidator, PartialCopy+UpdateValidator as deposit/withdraw/status/role/rewards/in-place/raw write, RemoveValidator, UpdateDelegation +/-, Snapshot, RevertToSnapshot, Finalise, IntermediateRoot, Commit+state.New, Copy, GetValidatorsForUpdate) over 6 validator keys and 6 delegator accounts, amounts at stake-unit boundaries; 55% of the histories stay inside the disciplined finding-free class, 45% are adversarial (finding classes, broken caller discipline, invalid roles/ids); a case is one history with the hash of the complete projected state (statistics, index, cached objects with slice length/capacity, trie records, delegator accounts, journal/revision counters) after every op; non-trivial = contains a create/update/delegate; distinct by full history"
+	for i, c := range cases {
+		res.CaseDescs = append(res.CaseDescs, History{Ops: c.Ops, Comment: c.Comment})
+		if i < 3 {
+			res.Samples = append(res.Samples, History{Ops: c.Ops, Comment: c.Comment})
+		}
+	}
+	for k, v := range known {
+		res.Known = append(res.Known, map[string]interface{}{"key": k, "histories": v})
+	}
+	res.Write(filepath.Join(outDir, "result.json"))
+}
+
+func boolInt(b bool) int {
+	if b {
+		return 1
+	}
+	return 0
+}
+
+func replay(file string, verbose bool) {
+	b, err := ioutil.ReadFile(file)
+	if err != nil {
+		fmt.Println(err)
+		os.Exit(2)
+	}
+	var h History
+	if err := json.Unmarshal(b, &h); err != nil {
+		fmt.Println(err)
+		os.Exit(2)
+	}
+	rr := run(&h, verbose, func(i int, o Op, hs *hasher, c clause) {
+		if verbose {
+			fmt.Printf("op %d %s\n  hash %d\n  obs %s\n", i, opCoq(o), hs.h, strings.Join(hs.raw, ";"))
+		}
+	})
+	fmt.Printf("ops done %d/%d panic=%v %s\nfinding classes entered: %v, caller discipline broken: %v\n", rr.opsDone, len(h.Ops), rr.panicked, rr.panicMsg, rr.classes, rr.undisc)
+	if verbose {
+		fmt.Println(caseCoq(&h))
+	}
+	if len(rr.failures) > 0 {
+		cl := rr.failClass[0]
+		if cl != "" {
+			cl = " [inside known finding class " + cl + "]"
+		}
+		fmt.Println("ORACLE VIOLATION:", rr.failures[0]+cl)
+		os.Exit(1)
+	}
+	fmt.Println("property holds on this history")
+}
 
 func main() {
+	mode := ""
+	if len(os.Args) > 1 {
+		mode = os.Args[1]
+		os.Args = append(os.Args[:1], os.Args[2:]...)
+	}
+	seed := flag.Uint64("seed", 1, "")
+	n := flag.Int("n", 300, "")
+	out := flag.String("out", ".", "")
+	corpus := flag.String("corpus", "/verif/corpus/C08", "")
+	file := flag.String("file", "", "")
+	verbose := flag.Bool("v", false, "")
+	flavour := flag.Int("flavour", -1, "0 = only disciplined finding-free histories, 1 = only adversarial, -1 = mix")
+	flag.Parse()
 	params.InitNetworkId(params.NetworkIdForTestCase)
-	try("E1 delegation aliasing under revert", func() {
-		st, _ := newState()
-		for i := 0; i < 6; i++ {
-			st.AddBalance(daddr(i), big.NewInt(1))
-			st.SetNonce(daddr(i), 1)
-		}
-		v := st.CreateValidator("a", common.Address{1}, common.Address{1}, params.RoleChancellor, key(0), key(0), you(10), big.NewInt(10), 1, 0, 0, params.ValidatorOnline)
-		a := v.MainAddress()
-		for _, i := range []int{3, 4, 5} {
-			st.UpdateDelegation(daddr(i), st.GetValidatorByMainAddr(a), you(int64(i)))
-		}
-		dumpVals(st, "before")
-		dumpStat(st, "before")
-		fmt.Println("cap", cap(st.GetValidatorByMainAddr(a).Delegations))
-		snap := st.Snapshot()
-		st.UpdateDelegation(daddr(1), st.GetValidatorByMainAddr(a), you(1))
-		dumpVals(st, "after add")
-		st.RevertToSnapshot(snap)
-		dumpVals(st, "after revert")
-		dumpStat(st, "after revert")
-		for i := 0; i < 6; i++ {
-			r, err := st.GetDelegationsFrom(daddr(i))
-			fmt.Println("delegator", i, len(r), err)
-		}
-		// update existing
-		snap = st.Snapshot()
-		st.UpdateDelegation(daddr(4), st.GetValidatorByMainAddr(a), you(7))
-		st.RevertToSnapshot(snap)
-		dumpVals(st, "after revert of update")
-		snap = st.Snapshot()
-		st.UpdateDelegation(daddr(3), st.GetValidatorByMainAddr(a), new(big.Int).Neg(you(3)))
-		dumpVals(st, "after delete")
-		st.RevertToSnapshot(snap)
-		dumpVals(st, "after revert of delete")
-		st.IntermediateRoot(true)
-	})
-	try("E2 RemoveValidator", func() {
-		st, _ := newState()
-		v := st.CreateValidator("a", common.Address{1}, common.Address{1}, params.RoleChancellor, key(0), key(0), you(10), big.NewInt(10), 1, 0, 0, params.ValidatorOnline)
-		st.CreateValidator("b", common.Address{1}, common.Address{1}, params.RoleChancellor, key(1), key(1), you(20), big.NewInt(20), 1, 0, 0, params.ValidatorOnline)
-		a := v.MainAddress()
-		st.IntermediateRoot(true)
-		dumpStat(st, "init")
-		snap := st.Snapshot()
-		st.RemoveValidator(a)
-		dumpStat(st, "removed")
-		st.RevertToSnapshot(snap)
-		dumpStat(st, "reverted")
-		fmt.Println("get after revert:", st.GetValidatorByMainAddr(a))
-		dumpVals(st, "reverted")
-		st.IntermediateRoot(true)
-		dumpStat(st, "after root")
-		dumpVals(st, "after root")
-	})
-	try("E2b RemoveValidator + commit", func() {
-		st, _ := newState()
-		v := st.CreateValidator("a", common.Address{1}, common.Address{1}, params.RoleChancellor, key(0), key(0), you(10), big.NewInt(10), 1, 0, 0, params.ValidatorOnline)
-		st.CreateValidator("b", common.Address{1}, common.Address{1}, params.RoleChancellor, key(1), key(1), you(20), big.NewInt(20), 1, 0, 0, params.ValidatorOnline)
-		a := v.MainAddress()
-		st.IntermediateRoot(true)
-		st.RemoveValidator(a)
-		dumpStat(st, "removed")
-		st.IntermediateRoot(true)
-		dumpStat(st, "after root")
-		dumpVals(st, "after root")
-	})
-	try("E3 index reload", func() {
-		st, _ := newState()
-		st.CreateValidator("a", common.Address{1}, common.Address{1}, params.RoleChancellor, key(0), key(0), you(10), big.NewInt(10), 1, 0, 0, params.ValidatorOnline)
-		st.IntermediateRoot(true)
-		st.CreateValidator("b", common.Address{1}, common.Address{1}, params.RoleSenator, key(1), key(1), you(20), big.NewInt(20), 1, 0, 0, params.ValidatorOnline)
-		dumpVals(st, "after create b")
-		dumpStat(st, "after create b")
-		st.IntermediateRoot(true)
-		dumpVals(st, "after root")
-	})
-	try("E4 copy then read delegations", func() {
-		st, _ := newState()
-		st.AddBalance(daddr(1), big.NewInt(1))
-		v := st.CreateValidator("a", common.Address{1}, common.Address{1}, params.RoleChancellor, key(0), key(0), you(10), big.NewInt(10), 1, 0, 0, params.ValidatorOnline)
-		st.UpdateDelegation(daddr(1), v, you(3))
-		cp := st.Copy()
-		dumpVals(cp, "copy")
-		dumpStat(cp, "copy")
-		r, err := cp.GetDelegationsFrom(daddr(1))
-		fmt.Println("copy delegations", r, err)
-	})
-	try("E5 commit reopen", func() {
-		st, db := newState()
-		st.AddBalance(daddr(1), big.NewInt(1))
-		v := st.CreateValidator("a", common.Address{1}, common.Address{1}, params.RoleChancellor, key(0), key(0), you(10), big.NewInt(10), 1, 0, 0, params.ValidatorOnline)
-		st.UpdateDelegation(daddr(1), v, you(3))
-		r1, r2, r3, err := st.Commit(true)
-		fmt.Println(err)
-		st2, err := state.New(r1, r2, r3, db)
-		fmt.Println(err)
-		dumpVals(st2, "reopened")
-		dumpStat(st2, "reopened")
-		r, err := st2.GetDelegationsFrom(daddr(1))
-		fmt.Println("delegations", len(r), err)
-		fmt.Println(len(st2.GetValidators().List()))
-	})
-	try("E6 delegator account missing", func() {
-		st, _ := newState()
-		v := st.CreateValidator("a", common.Address{1}, common.Address{1}, params.RoleChancellor, key(0), key(0), you(10), big.NewInt(10), 1, 0, 0, params.ValidatorOnline)
-		st.UpdateDelegation(daddr(1), v, you(3))
-		dumpVals(st, "x")
-		r, err := st.GetDelegationsFrom(daddr(1))
-		fmt.Println("delegations", len(r), err)
-	})
+	logging.Root().SetHandler(logging.DiscardHandler())
+	setup()
+	initSorted()
+	switch mode {
+	case "gen":
+		gen(*seed, *n, *out, *corpus, *flavour)
+	case "replay":
+		replay(*file, *verbose)
+	default:
+		fmt.Println("usage: c08 gen|replay")
+		os.Exit(2)
+	}
 }
